@@ -31,8 +31,14 @@ class AsyncoreConnectionDispatcher(YowConnectionDispatcher, asyncore.dispatcher_
     def connect(self, host):
         logger.debug("connect(%s)" % str(host))
         self.connectionCallbacks.onConnecting()
-        self.create_socket(socket.AF_INET, socket.SOCK_STREAM)
-        asyncore.dispatcher_with_send.connect(self, host)
+        try:
+            self.create_socket(socket.AF_INET, socket.SOCK_STREAM)
+            asyncore.dispatcher_with_send.connect(self, host)
+        except socket.error:
+            # raised by connect() itself (a host name that does not resolve): the attempt is over like after any other
+            # socket error; unreported, the layer stays in its connecting state and refuses every later connect
+            self.handle_error()
+            return
         asyncore.loop(timeout=1)
 
     def handle_connect(self):
